@@ -25,6 +25,8 @@ import (
 	"runtime"
 	"sync"
 	"unsafe"
+
+	"go.uber.org/atomic"
 )
 
 var (
@@ -58,6 +60,11 @@ type scopeRegistry struct {
 	cachedGaugeCardinalityGauge       CachedGauge
 	cachedHistogramCardinalityGauge   CachedGauge
 	cachedScopeCardinalityGauge       CachedGauge
+	// finalReport is set by the root's Close once the report loop has exited:
+	// the report pass that follows purges every scope. A periodic pass that is
+	// still in flight when the root is closed must not, it would drop what
+	// was recorded after it visited a scope.
+	finalReport atomic.Bool
 }
 
 type scopeBucket struct {
@@ -299,7 +306,7 @@ func (r *scopeRegistry) lockedLookup(subscopeBucket *scopeBucket, key string) (*
 
 func (r *scopeRegistry) purgeIfRootClosed() {
 	verifYield("registry.purge:top")
-	if !r.root.closed.Load() {
+	if !r.finalReport.Load() {
 		return
 	}
 
